@@ -82,7 +82,15 @@ HasDupOperand(M, t, r) ==
   \E g \in TGoalKeys(M, t, r) :
     /\ HasRel(M, g[1], g[2])
     /\ \E x \in SubRw(Rw(M, g[1], g[2])) :
-         x.k = "inter" /\ \E i, j \in DOMAIN x.ch : i # j /\ x.ch[i] = x.ch[j]
+         x.k \in {"inter", "union"} /\ \E i, j \in DOMAIN x.ch : i # j /\ x.ch[i] = x.ch[j]
+
+\* The relation depends (at type level) on a relation that lies on a dependency cycle:
+\* the streaming pipeline builds a cycle group for it.
+TSucc(M, g) == IF HasRel(M, g[1], g[2])
+               THEN {<<k[1], k[2]>> : k \in {k \in TRwKeys(M, Rw(M, g[1], g[2]), g[1], g[2]) : k[3] = "goal"}}
+               ELSE {}
+TClosure(M, G) == {<<k[1], k[2]>> : k \in {k \in TReachFrom(M, G, {<<g[1], g[2], "goal">> : g \in G}) : k[3] = "goal"}}
+HasTypeCycle(M, t, r) == \E g \in TGoalKeys(M, t, r) : g \in TSucc(M, g) \/ g \in TClosure(M, TSucc(M, g))
 
 ---------------------------------------------------------------------------
 AllTuples(ev) == stored \cup SeqToSet(ev.ctxt)
@@ -202,6 +210,9 @@ ListObjectsClass(M, TS, ev) ==
             \* accepted for C05's purposes, counted separately
             ELSE IF ev.errk \in {"internal", "validation"} /\ AnyE(M, TS, ev.ctx) THEN <<"OK_LO_ERR_OTHERCODE", "">>
             ELSE IF ev.errk = "internal" /\ HasDupOperand(M, ev.t, ev.r) THEN <<"KF_WeightedDupOperand", ToString(R)>>
+            \* the request did not return (supervisor watchdog): the pipeline does not tear down
+            \* its cycle groups on some models with dependency cycles (see DESIGN 6, KF-6)
+            ELSE IF ev.errk = "hang" /\ HasTypeCycle(M, ev.t, ev.r) THEN <<"KF_PipelineCycleHang", "">>
             ELSE <<"BAD_LO_ERR", ToString(R)>>
      ELSE IF Len(ev.got) # Cardinality(X) THEN <<"BAD_LO_DUP", ToString(R)>>
      ELSE IF ~(X \subseteq R) THEN <<"BAD_LO_UNSOUND", ToString(R)>>
